@@ -190,7 +190,7 @@ STATS = [
 
 def run(ctx: Ctx):
   st = {}
-  for r in (r1, r2, r3, r4, r5, r6, r7, r9, r10, r12, r14, r15, r16, r17, r18, r19, r20, r21, r22, r23, r24):
+  for r in (r1, r2, r3, r4, r5, r6, r7, r9, r10, r12, r14, r15, r16, r17, r18, r19, r20, r21, r22, r23, r24, r25):
     ctx.guard(r, st)
   from mlmverif.props import c11
   from mlmverif.props._agg import model as aggmodel
@@ -1582,12 +1582,45 @@ def r24(ctx: Ctx, m=None):
   ctx.floor(rule, 1, n)
 
 
+def r25(ctx: Ctx, m=None):
+  rule = 'R-C07-25'
+  ctx.rule(rule, '"the one-shot function API returns the same value as the accumulator API" on the SAME arrays: computing a metric'
+           ' never writes into the caller\'s data. In the add / new / update methods and module functions of the aggregate'
+           ' modules no numpy call carries `out=` and no `.astype(...)` is told `copy=False`: with float64 input the'
+           ' "converted" array IS the caller\'s, an in-place `np.add(x, y, out=x)` overwrites it, and the next evaluation of'
+           ' the same arrays (another API, a merged shard view) computes from garbage')
+  n = 0
+  for fi in ctx.repo.all_functions():
+    if '.aggregates.' not in fi.module.name or fi.module.name.endswith(('_test', 'test_utils')):
+      continue
+    if fi.name not in ('add', 'new', 'update_state', '__call__') and fi.cls is not None:
+      continue
+    n += 1
+    bad = None
+    for c in ast.walk(fi.node):
+      if isinstance(c, ast.Call):
+        if kwarg(c, 'out') is not None and unparse(c.func).startswith(('np.', 'numpy.')):
+          bad = c
+        if isinstance(c.func, ast.Attribute) and c.func.attr == 'astype' and isinstance(kwarg(c, 'copy'), ast.Constant) and kwarg(c, 'copy').value is False:
+          bad = c
+    what = f'{fi.qualname}: no in-place numpy operation on (possibly the caller\'s) input arrays'
+    if bad is not None:
+      ctx.fail(rule, fi, what,
+               f'`{unparse(bad)[:70]}` can write into / alias the caller\'s array: a second evaluation of the same data gives another'
+               ' value than the first', node=bad)
+    else:
+      ctx.ok(rule, fi, what, fi.node)
+  ctx.floor(rule, 20, n)
+
+
 from mlmverif.selfcheck import B, OK  # noqa: E402
 
 _C = 'aggregates/classification.py'
 _T = 'aggregates/retrieval.py'
 _MC = 'metrics/classification.py'
 VARIANTS = [
+    B('relative-difference-computed-in-the-callers-buffer', 'aggregates/rolling_stats.py',
+      "    x = np.asarray(x).astype('float64')\n    y = np.asarray(y).astype('float64')\n", "    x = np.asarray(x).astype('float64', copy=False)\n    y = np.asarray(y).astype('float64', copy=False)\n", 'R-C07-25'),
     B('topk-by-unbounded-partition', 'signals/topk_accuracy.py',
       "  topk_predictions = np.argsort(weighted_pred)[-k:]", "  topk_predictions = np.argpartition(weighted_pred, -k)[-k:]", 'R-C07-24'),
     OK('topk-by-bounded-partition', 'signals/topk_accuracy.py',
